@@ -8,10 +8,10 @@ PROP = dict(
     ],
     bounds="accept: every stratum, local stratum, 32-bit source id and reference id, reach register, 0..=2 local IPv4 addresses, "
            "Bloom filter absent or present with arbitrary bits in the bytes that hold the ten indices of an arbitrary (sorted, distinct) server id; "
-           "advertise: 0..=2 used sources, each NTP (any stratum, id, filter byte, version) or external, any local stratum",
+           "advertise: 0..=2 used sources, each NTP (any stratum, id, version; no Bloom filter) or external, any local stratum",
     outside="IPv6 local addresses (identifier = MD5 of the address, not encoded); more than two local addresses / more than two used sources "
             "(the code is a plain `any`/fold over them); Bloom filter bits outside the bytes of the own server id (cannot influence contains_id); "
-            "the `Distance` error variant is never produced by this function",
+            "the `Distance` error variant is never produced by this function; union of the used sources' Bloom filters in the advertisement (C34)",
     assumptions=[
         "server id indices are < 4096, sorted and distinct (what ServerId::new produces)",
         "c33_accept excludes the two defect regions below; they are the subject of the two _kf_ harnesses",
@@ -25,6 +25,6 @@ PROP = dict(
         H(NH, "c33", "c33_accept_kf_self_stratum1", "KNOWN DEFECT region: source whose own id is a local address and that reports stratum 1 is accepted: "
           "the only identifier comparison is skipped when stratum == 1", timeout=300),
         H(NH, "c33", "c33_adv", "advertised stratum = primary source stratum + 1 (saturating) and reference id = its source id, local stratum / none when no source; "
-          "advertised filter = own id + union of the used sources' filters", timeout=300),
+          "own server id in the advertised filter", timeout=300),
     ],
 )
